@@ -58,7 +58,7 @@ Unit(
     calls={
         "self.model_param_defs.check_params": CHECK,
         "self.internal_model_from_file": Ext("internal_model_from_file", protect=["dict(kwargs)"]),
-        "self._parser_blueprint.clone": Ext("clone", pure=True, raises=None, returns="obj"),
+        "self._parser_blueprint.clone": Ext("clone", pure=True, raises=None, returns="obj:TextXModelParser"),
         "self._parser_blueprint.clone().get_model_from_str": Ext("get_model_from_str", protect=["dict(kwargs)"]),
         "p": Ext("model_processor"),
     },
